@@ -35,28 +35,20 @@ Theorem C03_roundtrip_exact_refuted : forall uri_ok custom_ok, custom_law custom
 Proof. exact roundtrip_exact_refuted. Qed.
 Print Assumptions C03_roundtrip_exact_refuted.
 
-(* ---- every option that is set is marshalled ---- *)
-Theorem C03_fields_preserved_partial : forall custom_ok, custom_law custom_ok ->
+(* ---- every option that is set is marshalled; none is conditional on another attribute
+   (Welcome.authmethod was, until fix a9cc81d8) ---- *)
+Theorem C03_fields_preserved : forall custom_ok, custom_law custom_ok ->
   forall s m i o v, In s schemas -> shape_ok custom_ok s m = true ->
   nth_error (s_opts s) i = Some o -> nth_error (m_opts m) i = Some v ->
-  (s_name s, o_key o) <> ("Welcome"%string, "authmethod"%string) ->
   own_holds o v = true ->
   dget (s2l (o_key o)) (marshal_dict s m) = Some v.
-Proof. exact fields_preserved_partial. Qed.
-Print Assumptions C03_fields_preserved_partial.
+Proof. exact fields_preserved_all. Qed.
+Print Assumptions C03_fields_preserved.
 
-(* ... except Welcome.authmethod, written only `if self.authrole` *)
-Theorem C03_fields_preserved_refuted : forall custom_ok,
-  exists s m i o v, In s schemas /\ shape_ok custom_ok s m = true
-    /\ nth_error (s_opts s) i = Some o /\ nth_error (m_opts m) i = Some v
-    /\ own_holds o v = true /\ dget (s2l (o_key o)) (marshal_dict s m) = None.
-Proof. exact fields_preserved_refuted. Qed.
-Print Assumptions C03_fields_preserved_refuted.
-
-Theorem C03_only_authmethod_is_conditional_on_another_attribute :
-  forallb (fun s => forallb (gated_ok s) (s_opts s)) schemas = true.
-Proof. exact only_welcome_authmethod_gated. Qed.
-Print Assumptions C03_only_authmethod_is_conditional_on_another_attribute.
+Theorem C03_no_option_conditional_on_another_attribute :
+  forallb (fun s => forallb not_gated (s_opts s)) schemas = true.
+Proof. exact no_option_gated. Qed.
+Print Assumptions C03_no_option_conditional_on_another_attribute.
 
 (* the documented payload-transparency triple: written exactly when a non-empty payload is *)
 Theorem C03_payload_triple : forall custom_ok, custom_law custom_ok ->
@@ -127,19 +119,42 @@ Example C03_witness_call_payload :
   /\ parse_i Call (marshal Call ex_call_payload) = Ok ex_call_payload.
 Proof. split; [repeat split; vm_compute; reflexivity | vm_compute; reflexivity]. Qed.
 
-(* a defect the model reproduces: Publish(kwargs={"k":1}) marshals to [16,1,{},"a.b",None,{"k":1}], which
-   Publish.parse rejects (`type(args) not in [list, str, bytes]`) *)
+(* repaired by dbd3c93e: Publish(kwargs={"k":1}) marshals to [16,1,{},"a.b",None,{"k":1}] and parses back *)
 Definition ex_publish_kwargs_only : msg :=
   {| m_pos := [VInt 1; VStr (s2l "a.b")];
      m_opts := map (fun _ => VNull) (s_opts Publish);
      m_pl := {| p_args := VNull; p_kwargs := VDict [(KS (s2l "k"), VInt 1)];
                 p_payload := VNull; p_enc_algo := VNull; p_enc_key := VNull; p_enc_ser := VNull |};
      m_roles := []; m_custom := [] |}.
-Example C03_publish_kwargs_only_refuted :
-  ctor_ok custom_simple Publish ex_publish_kwargs_only = true
-  /\ shape_ok custom_simple Publish ex_publish_kwargs_only = true
-  /\ norm Publish ex_publish_kwargs_only = ex_publish_kwargs_only
-  /\ parse_i Publish (marshal Publish ex_publish_kwargs_only) = Raise ProtocolError.
+Example C03_publish_kwargs_only :
+  valid uri_simple custom_simple Publish ex_publish_kwargs_only
+  /\ parse_i Publish (marshal Publish ex_publish_kwargs_only) = Ok ex_publish_kwargs_only.
+Proof. split; [repeat split; vm_compute; reflexivity | vm_compute; reflexivity]. Qed.
+
+(* repaired by a9cc81d8: Welcome(authmethod="ticket") without authrole keeps its authmethod *)
+Definition ex_welcome_authmethod_only : msg :=
+  {| m_pos := [VInt 1];
+     m_opts := [VNull; VNull; VNull; VStr (s2l "ticket"); VNull; VNull; VNull; VNull; VNull];
+     m_pl := null_pl;
+     m_roles := [(KS (s2l "broker"), map (fun _ => VNull) (snd (nth 0 welcome_roles (""%string, []))))];
+     m_custom := [] |}.
+Example C03_welcome_authmethod_only :
+  valid uri_simple custom_simple Welcome ex_welcome_authmethod_only
+  /\ parse_i Welcome (marshal Welcome ex_welcome_authmethod_only) = Ok ex_welcome_authmethod_only.
+Proof. split; [repeat split; vm_compute; reflexivity | vm_compute; reflexivity]. Qed.
+
+(* still lossy (known finding): an empty opaque payload drops the payload AND its enc_algo *)
+Definition ex_event_empty_payload : msg :=
+  {| m_pos := [VInt 1; VInt 2];
+     m_opts := map (fun _ => VNull) (s_opts Event);
+     m_pl := {| p_args := VNull; p_kwargs := VNull; p_payload := VBytes [];
+                p_enc_algo := VStr (s2l "mqtt"); p_enc_key := VNull; p_enc_ser := VNull |};
+     m_roles := []; m_custom := [] |}.
+Example C03_empty_payload_refuted :
+  ctor_ok custom_simple Event ex_event_empty_payload = true
+  /\ shape_ok custom_simple Event ex_event_empty_payload = true
+  /\ fields_ok uri_simple custom_simple Event ex_event_empty_payload = true
+  /\ p_enc_algo (m_pl (norm Event ex_event_empty_payload)) = VNull.
 Proof. repeat split; vm_compute; reflexivity. Qed.
 
 Example C03_batch_witness :
